@@ -100,6 +100,9 @@ def h_algebra(kind, n, proj_id, mustfail=False, kind2='dict'):
         # marginalize: projection patterns over the support
         projs = projection_family(list(f))
         proj = projs[proj_id % len(projs)]
+        if 'table' in (kind, kind2):
+            # a tuple used as a key of a table row is a multi-field selector by design (C12), not an event label: table-backed kernels get string labels
+            proj = {e: (v if not isinstance(v, tuple) else 'blk%d' % v[1]) for e, v in proj.items()}
         m = d.marginalize(lambda e: proj[e])
         img = []
         for e in f:
